@@ -11,6 +11,7 @@ DOC = {
 
 def parse(line):
     t = line.split()
+    if t[0] == 'H': t = t[3:]
     lam = int(t[0])
     if t[1] != 'OK': return lam, None
     v = [int(x) for x in t[2:]]
@@ -19,7 +20,7 @@ def parse(line):
     return lam, d
 
 def run(ctx):
-    ctx.rule = ('the real selector called in a forked child for every lambda in [-5,300] plus INT32_MIN, INT32_MIN+1, INT32_MAX, 10^6; every field of the returned '
+    ctx.rule = ('the real selector called in a forked child for every lambda in [-5,300] plus INT32_MIN, INT32_MIN+1, INT32_MAX, 10^6, and three request histories inside one process (1..128 ascending, 128..1 descending, a mixed sequence alternating between the two sets); every field of the returned '
                 'set dumped (reals as exact dyadic rationals) into gen/ParamsFacts.v, against which the theorems are re-checked. distinct = distinct lambda values')
     ctx.assumptions = ['F1-F3 (DESIGN.md C19) are the formalisation of "the library\'s own noise formulas"; facts come from the built library (toolchain trusted)']
     bdir = vlib.build_lib('optim')
@@ -43,7 +44,9 @@ def run(ctx):
     seen = set()
     for line in out:
         lam, d = parse(line)
-        ctx.count(lam); seen.add(lam)
+        hist = line.split()[:3] if line.startswith('H ') else None
+        ctx.count((lam, tuple(hist or []))); seen.add(lam)
+        if hist and hist[2] == '-1': ctx.report('history-abort', 'the selector died during request history %s' % hist[1], {'history': hist[1]}); continue
         exp = None if (lam <= 0 or lam > 128) else ('Set80' if lam <= 80 else 'Set128')
         if exp is None:
             if d is not None: ctx.report('selector-accepts', 'lambda=%d is accepted (should abort)' % lam, {'lambda': lam, 'observed': line})
@@ -54,7 +57,7 @@ def run(ctx):
         for f, v in doc.items():
             ov = d[f]
             ok = (abs(ov - v) <= 1e-15 * abs(v)) if isinstance(v, float) else ov == v
-            if not ok: ctx.report('set-field-' + f, 'lambda=%d: field %s = %r, documented %r (%s)' % (lam, f, ov, v, exp), {'lambda': lam, 'field': f, 'observed': ov, 'documented': v})
+            if not ok: ctx.report('set-field-' + f, 'lambda=%d%s: field %s = %r, documented %r (%s)' % (lam, (' (request number %s of in-process history %s: 0 = 1..128 ascending, 1 = descending, 2 = 80,128,80,81,1,128,100,50,81,80)' % (hist[2], hist[1])) if hist else '', f, ov, v, exp), {'lambda': lam, 'field': f, 'observed': ov, 'documented': v, 'history': hist})
         if not (d['N'] == 1024 and d['l'] * d['Bgbit'] <= 32 and d['t'] * d['basebit'] <= 31 and d['ext_n'] == d['k'] * d['N'] and d['Bg'] == 1 << d['Bgbit']
                 and d['halfBg'] == d['Bg'] // 2 and d['maskMod'] == d['Bg'] - 1 and d['kpl'] == (d['k'] + 1) * d['l']
                 and d['offset'] == (sum(1 << (32 - (i + 1) * d['Bgbit']) for i in range(d['l'])) * d['halfBg']) % 2**32
